@@ -10,18 +10,19 @@ open Zap.Dv Zap.Stored Zap.Compose
 
 /-- C03 (content).  For a non-empty well-formed batch and a name `n` of the field table the
     segment has a field record `f` for `n`; if `n` is indexed with doc values in the batch, `f.dv`
-    is `docTermMap` of the field's dictionary: document numbers strictly ascending, in range, never
-    an empty list, and the terms recorded for ANY document number are the specified doc values;
-    otherwise `f.dv = none`. -/
+    is `docTermMap` of the field's dictionary with the extra doc values (encoded geo shapes) added:
+    document numbers strictly ascending, in range, never an empty list, and the values recorded for
+    ANY document number are the specified doc values (terms, then the shape if any); otherwise
+    `f.dv = none`. -/
 theorem C03_content_full (vectors : Bool) (mode : Nat) (b : Batch) (hwf : Spec.WF b) (hb : b ≠ [])
     (n : Name) (hn : n ∈ fieldTable b) :
     ∃ f, (buildSeg vectors mode b).field? n = some f ∧ f.name = n ∧
       (includeDocValues b n = true →
         ∃ terms, f.terms = terms.map (fun t => (t.1, PostRep.general t.2)) ∧
-          f.dv = some (docTermMap b.length terms) ∧
-          ((docTermMap b.length terms).map (·.1)).Pairwise (· < ·) ∧
-          (∀ p ∈ docTermMap b.length terms, p.1 < b.length ∧ p.2 ≠ []) ∧
-          ∀ d, (((docTermMap b.length terms).find? (·.1 = d)).map (·.2)).getD [] =
+          f.dv = some (addShapes b n (docTermMap b.length terms)) ∧
+          ((addShapes b n (docTermMap b.length terms)).map (·.1)).Pairwise (· < ·) ∧
+          (∀ p ∈ addShapes b n (docTermMap b.length terms), p.1 < b.length ∧ p.2 ≠ []) ∧
+          ∀ d, (((addShapes b n (docTermMap b.length terms)).find? (·.1 = d)).map (·.2)).getD [] =
             Spec.docValues vectors b n d) ∧
       (includeDocValues b n = false → f.dv = none) :=
   C03_content vectors mode b hb
@@ -30,8 +31,9 @@ theorem C03_content_full (vectors : Bool) (mode : Nat) (b : Batch) (hwf : Spec.W
 
 /-- C03 (end to end): on the segment built from a well-formed batch, with any reachable visit
     state (any order of visits, state reused, also across segments), a visit of `doc` delivers for
-    each listed name (in order, per occurrence) the specified doc values of the document — nothing
-    for names without doc values, unknown names, or documents beyond the batch. -/
+    each listed name (in order, per occurrence) the specified doc values of the document (its terms
+    ascending, then the encoded shape of a geo-shape field) — nothing for names without doc values,
+    unknown names, or documents beyond the batch. -/
 theorem C03_visit_built_full (vectors : Bool) (mode : Nat) (b : Batch) (hwf : Spec.WF b)
     (segOf : Nat → Seg) (tag cs : Nat) (htag : segOf tag = buildSeg vectors mode b)
     (fields : List Name) (st : Option DvState) (hst : Reach segOf cs fields st) (doc : Nat) :
@@ -68,6 +70,21 @@ example : tagN ∈ fieldTable exB ∧ includeDocValues exB tagN = true ∧
   rw [show seg1 = buildSeg false 0 exB from rfl, hf] at hseg
   simp only [Option.map_some, Option.some.injEq, hdv] at hseg
   rw [← hrec d, hseg]
+
+theorem exG_wf : Spec.WF exG := by constructor <;> decide +kernel
+
+/-- `C03_visit_built_full` on the geo-shape batch, with a state that has already visited
+    documents 2 and 1: document 1 has no terms, only its shape; document 2 its two terms and the
+    shape of its last geo-shape instance -/
+example :
+    (segG.visitDocValues 0 2 (some (segG.visitDocValues 0 2 none [geoN] 2).1) [geoN] 1).2 = [(geoN, [0x01, 0x02])] ∧
+    (segG.visitDocValues 0 2 (some (segG.visitDocValues 0 2 (some (segG.visitDocValues 0 2 none [geoN] 2).1)
+        [geoN] 1).1) [geoN] 2).2 = [(geoN, w), (geoN, z), (geoN, [0xbb, 0xcc])] :=
+  ⟨(C03_visit_built_full false 0 exG exG_wf (fun _ => segG) 0 2 rfl [geoN] _
+      (Reach.visit (segOf := fun _ => segG) 0 2 Reach.init) 1).trans (by decide +kernel),
+   (C03_visit_built_full false 0 exG exG_wf (fun _ => segG) 0 2 rfl [geoN] _
+      (Reach.visit (segOf := fun _ => segG) 0 1 (Reach.visit (segOf := fun _ => segG) 0 2 Reach.init)) 2).trans
+      (by decide +kernel)⟩
 
 end C03Ex
 
